@@ -171,7 +171,7 @@ func c15concBody() {
 
 func init() {
 	sched.Register(&sched.Scenario{Name: "C15/concurrent", Setup: func(tier string) (sched.Config, func()) {
-		b := sched.Bounds{P: 2}
+		b := sched.Bounds{P: 2, F: -1}
 		if tier == "thorough" {
 			b.P = 3
 		}
